@@ -69,7 +69,10 @@ type world struct {
 	calls   []bsCall
 	steps   []string
 	nextPay int
+	nextVar int
 	base    uint64
+	shared  [3]uint64 // store / region / peer id shared by the "same ids" contenders of the race
+	dupSeen bool
 	winner  *bsCall // the single successful request once known
 	served  int     // member that served the winner
 }
@@ -243,6 +246,43 @@ func (w *world) payload() (*metapb.Store, *metapb.Region) {
 		Labels: []*metapb.StoreLabel{{Key: "zone", Value: fmt.Sprintf("z%d", j)}}, StartTimestamp: int64(1600000000 + j)}
 	rg := &metapb.Region{Id: rid, RegionEpoch: &metapb.RegionEpoch{ConfVer: 1, Version: 1}, Peers: []*metapb.Peer{{Id: pid, StoreId: sid}}}
 	return st, rg
+}
+
+// variantOf returns a well-formed payload that carries the given store / region ids (the ids of
+// another request) but differs from every other payload of the round in address, labels, version,
+// start timestamp and region epoch; with varyPeer some variants also carry another peer id.
+func (w *world) variantOf(sid, rid, pid uint64, varyPeer bool) (*metapb.Store, *metapb.Region) {
+	w.mu.Lock()
+	v := w.nextVar
+	w.nextVar++
+	w.mu.Unlock()
+	st := &metapb.Store{Id: sid, Address: fmt.Sprintf("mock://tikv-r%d-v%d:20161", w.round, v), Version: fmt.Sprintf("5.%d.%d", 1+v%3, v),
+		Labels:         []*metapb.StoreLabel{{Key: "zone", Value: fmt.Sprintf("zv%d", v)}, {Key: "host", Value: fmt.Sprintf("h%d", v)}},
+		StartTimestamp: int64(1700000000 + v)}
+	peer := pid
+	if varyPeer && v%3 == 2 {
+		peer = pid + 700000 + uint64(v)
+	}
+	rg := &metapb.Region{Id: rid, RegionEpoch: &metapb.RegionEpoch{ConfVer: uint64(1 + v%3), Version: uint64(2 + v)}, Peers: []*metapb.Peer{{Id: peer, StoreId: sid}}}
+	return st, rg
+}
+
+// sameIDsRequest: a request with the ids of the successful request (or of the shared set before
+// there is one) and different content.
+func (w *world) sameIDsRequest() *pdpb.BootstrapRequest {
+	sid, rid, pid := w.shared[0], w.shared[1], w.shared[2]
+	w.mu.Lock()
+	if w.winner != nil {
+		sid, rid, pid = w.winner.Store.GetId(), w.winner.Region.GetId(), w.winner.Region.GetPeers()[0].GetId()
+	}
+	w.mu.Unlock()
+	st, rg := w.variantOf(sid, rid, pid, true)
+	w.r.Count("bootstrap_requests_same_ids_different_content", 1)
+	return &pdpb.BootstrapRequest{Header: &pdpb.RequestHeader{ClusterId: w.id}, Store: st, Region: rg}
+}
+
+func samePayload(a, b *bsCall) bool {
+	return proto.Equal(a.Store, b.Store) && proto.Equal(a.Region, b.Region)
 }
 
 var malformations = []string{"nil-store", "nil-region", "zero-store-id", "zero-region-id", "zero-peer-id", "start-key", "end-key",
@@ -517,9 +557,37 @@ func (w *world) judgeBootstrap(stage string) bool {
 			return false
 		}
 	}
-	if len(succ) > 1 {
-		r.Violation("bootstrap:multiple-successes:"+phaseOf(succ), fmt.Sprintf("%d bootstrap requests succeeded on one cluster", len(succ)), wit(nil))
+	// exactly one success among requests with pairwise different payloads; several successes of
+	// byte-identical requests (a true retry of one request) are counted, not judged
+	var groups []bsCall
+	for i := range succ {
+		found := false
+		for g := range groups {
+			if samePayload(&groups[g], &succ[i]) {
+				found = true
+			}
+		}
+		if !found {
+			groups = append(groups, succ[i])
+		}
+	}
+	if len(groups) > 1 {
+		class := phaseOf(succ)
+		sameIDs := true
+		for _, g := range groups[1:] {
+			if g.Store.GetId() != groups[0].Store.GetId() || g.Region.GetId() != groups[0].Region.GetId() {
+				sameIDs = false
+			}
+		}
+		if sameIDs {
+			class = "same-ids-different-content"
+		}
+		r.Violation("bootstrap:multiple-successes:"+class, fmt.Sprintf("%d bootstrap requests with %d different payloads succeeded on one cluster", len(succ), len(groups)), wit(nil))
 		return false
+	}
+	if len(succ) > 1 && !w.dupSeen {
+		w.dupSeen = true
+		r.Count("identical_payload_several_successes_not_judged", 1)
 	}
 	if len(succ) == 0 {
 		if t.Root != nil || len(t.Stores) > 0 || len(t.Regions) > 0 || len(t.History) > 0 {
@@ -739,6 +807,7 @@ type roundPlan struct {
 	Members     int    `json:"members"`
 	K           int    `json:"k"`
 	Via         string `json:"via"` // direct | grpc | mixed
+	IDs         string `json:"ids"` // distinct | shared | mixed | duplicate
 	Malformed   int    `json:"malformed_in_race"`
 	PreResign   bool   `json:"resign_before_race"`
 	PostResign  bool   `json:"resign_after"`
@@ -747,7 +816,7 @@ type roundPlan struct {
 }
 
 func (p roundPlan) key() string {
-	return fmt.Sprintf("m%d|k%d|%s|mal%d|pre%v|post%v|rst%v", p.Members, p.K, p.Via, p.Malformed, p.PreResign, p.PostResign, p.Restart)
+	return fmt.Sprintf("m%d|k%d|%s|%s|mal%d|pre%v|post%v|rst%v", p.Members, p.K, p.Via, p.IDs, p.Malformed, p.PreResign, p.PostResign, p.Restart)
 }
 
 func via(plan string, j int, rng *rand.Rand) string {
@@ -820,12 +889,34 @@ func bootstrapRound(r *ev.Run, round int, p roundPlan, rng *rand.Rand) {
 		req       *pdpb.BootstrapRequest
 	}
 	var jobs []job
+	var dup *pdpb.BootstrapRequest
+	{
+		st, rg := w.payload()
+		w.shared = [3]uint64{st.Id, rg.Id, rg.Peers[0].Id}
+	}
 	for j := 0; j < p.K; j++ {
 		m := l
 		if p.Members > 1 && rng.Intn(10) < 3 {
 			m = rng.Intn(p.Members)
 		}
-		jobs = append(jobs, job{"valid", via(p.Via, j, rng), m, w.request("valid")})
+		var req *pdpb.BootstrapRequest
+		switch {
+		case p.IDs == "shared" || (p.IDs == "mixed" && j%2 == 0):
+			// same store / region (/ peer) id as the other contenders of this kind, different content
+			st, rg := w.variantOf(w.shared[0], w.shared[1], w.shared[2], p.IDs == "mixed")
+			req = &pdpb.BootstrapRequest{Header: &pdpb.RequestHeader{ClusterId: w.id}, Store: st, Region: rg}
+			r.Count("bootstrap_requests_same_ids_different_content", 1)
+		case p.IDs == "duplicate":
+			// byte-identical copies of one request (a true retry)
+			if dup == nil {
+				dup = w.request("valid")
+			}
+			req = cloneReq(dup)
+			r.Count("bootstrap_requests_identical_payload", 1)
+		default:
+			req = w.request("valid")
+		}
+		jobs = append(jobs, job{"valid", via(p.Via, j, rng), m, req})
 	}
 	for j := 0; j < p.Malformed; j++ {
 		kind := malformations[rng.Intn(len(malformations))]
@@ -918,6 +1009,8 @@ func bootstrapRound(r *ev.Run, round int, p roundPlan, rng *rand.Rand) {
 			&pdpb.BootstrapRequest{Header: &pdpb.RequestHeader{ClusterId: w.id}, Store: proto.Clone(w.winner.Store).(*metapb.Store), Region: proto.Clone(w.winner.Region).(*metapb.Region)})
 	}
 	w.send("repeat", "two-peers", "grpc", l, w.request("two-peers"))
+	w.send("repeat-same-ids", "valid", "direct", l, w.sameIDsRequest())
+	w.send("repeat-same-ids", "valid", "grpc", l, w.sameIDsRequest())
 	// (6) leader resigns and campaigns again; bootstrap requests keep arriving meanwhile
 	if p.PostResign {
 		stop := make(chan struct{})
@@ -935,7 +1028,11 @@ func bootstrapRound(r *ev.Run, round int, p roundPlan, rng *rand.Rand) {
 					default:
 					}
 					m := (k + n) % p.Members
-					w.send("during-election", "valid", v, m, w.request("valid"))
+					if (k+n)%2 == 0 {
+						w.send("during-election", "valid", v, m, w.request("valid"))
+					} else {
+						w.send("during-election-same-ids", "valid", v, m, w.sameIDsRequest())
+					}
 					time.Sleep(2 * time.Millisecond)
 				}
 			}(k, v)
@@ -954,6 +1051,7 @@ func bootstrapRound(r *ev.Run, round int, p roundPlan, rng *rand.Rand) {
 		w.step("leader %d serves again", l)
 		w.send("after-election", "valid", "direct", l, w.request("valid"))
 		w.send("after-election", "valid", "grpc", l, w.request("valid"))
+		w.send("after-election-same-ids", "valid", "direct", l, w.sameIDsRequest())
 		if b, err := w.isBootstrapped("grpc", l); err == nil && !b {
 			r.Violation("is-bootstrapped:false-after-leader-change", "IsBootstrapped answered false on the new leader although the raft cluster is running", w.witness(nil))
 			return
@@ -992,6 +1090,7 @@ func bootstrapRound(r *ev.Run, round int, p roundPlan, rng *rand.Rand) {
 		}
 		w.send("after-restart", "valid", "direct", vi, w.request("valid"))
 		w.send("after-restart", "valid", "grpc", l, w.request("valid"))
+		w.send("after-restart-same-ids", "valid", "grpc", l, w.sameIDsRequest())
 		if b, err := w.isBootstrapped("direct", l); err == nil && !b {
 			r.Violation("is-bootstrapped:false-after-restart", "IsBootstrapped answered false after a restart although the raft cluster is running", w.witness(nil))
 			return
